@@ -152,6 +152,25 @@ def crosstype_cases():
                 v = {"m": [[f"k{i}", x] for i, x in enumerate(g)]} if cont == "mapval" else {cont: list(g)}
                 kw = [["a", v]]
                 cases.append({"suite": "construct", "cls": cls, "kw": kw, "stream": "crosstype", "re": gen.re_table(cls, kw)})
+    # uniqueItems over nested STRUCTURES that are == but print (and hash) differently: 20 vs 20.0, 1 vs True, the same
+    # map entries in another order
+    item = {"k": "struct", "name": "UItem", "required": [], "addl": False,
+            "fields": [["value", {"k": "number"}], ["labels", {"k": "mapAny"}], ["any", {"k": "anything"}]]}
+    S = lambda **kw: {"o": ["UItem", [[k, v] for k, v in kw.items()]]}
+    ab, ba = {"m": [["a", 1], ["b", 2]]}, {"m": [["b", 2], ["a", 1]]}
+    sgroups = [[S(value=20), S(value=fl(Fraction(20)))], [S(value=1), S(value=True)], [S(labels=ab), S(labels=ba)],
+               [S(any=1), S(any=one)], [S(value=1), S(value=2)], [S(value=1), S(value=1)], [S(labels=ab), S(labels=ab)],
+               [S(value=1, labels=ab), S(value=one, labels=ba), S(value=3)]]
+    for cont in ("l", "q", "t"):
+        fd = {"k": "tupleOf", "item": dict(item), "uniq": True} if cont == "t" else {"k": "seqOf", "item": dict(item), "uniq": True}
+        if cont == "q":
+            fd["seq"] = "deque"
+        cls = {"k": "struct", "name": f"X{ci}", "required": ["a"], "addl": False, "fields": [["a", fd]]}
+        ci += 1
+        fix_accepts(cls)
+        for g in sgroups:
+            kw = [["a", {cont: list(g)}]]
+            cases.append({"suite": "construct", "cls": cls, "kw": kw, "stream": "crosstype", "re": gen.re_table(cls, kw)})
     return cases
 
 
